@@ -183,7 +183,7 @@ def write_fasta(names, rows, width=0, eol="\n", trail="", blank_before=0, blank_
     return eol.join(out) + eol
 
 
-def write_msf(names, rows, kind="P", width=50, group=10, gapchar=".", eol="\n", pileup=True, namepad=None):
+def write_msf(names, rows, kind="P", width=50, group=10, gapchar=".", eol="\n", pileup=True, namepad=None, ruler=False):
     """GCG style MSF as PileUp/BAliBASE write it."""
     n = len(rows[0]) if rows else 0
     rows = [r.replace("-", gapchar) for r in rows]
@@ -201,6 +201,12 @@ def write_msf(names, rows, kind="P", width=50, group=10, gapchar=".", eol="\n", 
     pad = (namepad or (max(len(x) for x in names) + 6))
     for s in range(0, max(n, 1), width):
         out.append("")
+        if ruler:
+            # GCG prints the first and last column number of the block above it (a line that starts with blanks)
+            last = min(n, s + width)
+            span = (last - s) + ((last - s - 1) // group if group else 0)
+            left = str(s + 1)
+            out.append(" " * pad + left + " " * max(1, span - len(left) - len(str(last))) + str(last))
         for nm, r in zip(names, rows):
             seg = r[s:s + width]
             if group:
